@@ -127,7 +127,11 @@ class Bridge:
                 for i, (s, pos, h) in enumerate(f['blocks']):
                     if s in ('BLK', 'REP'):
                         blk = v[i * self.bs:(i + 1) * self.bs]
-                        self.hash_known[(self.bid(blk), len(blk))] = self.hval(h)
+                        key = (self.bid(blk), len(blk))
+                        # a REP block carries an INHERITED hash (it may not be the hash of this data): never learn from it,
+                        # and never override a hash computed with the tool's own function
+                        if s == 'BLK' and key not in self.hash_done:
+                            self.hash_known[key] = self.hval(h)
 
     def compute_hashes(self, hasher, st, extra_lens=()):
         """complete the hash table with the tool's own hash function (harness/c/hash_drv.c built from the working tree):
